@@ -8,6 +8,7 @@ Lemma dt_lookup_notin k d : ~ In k (dt_ids d) -> dt_lookup k d = None.
 Proof.
   induction d as [|[k' v] t IH]; simpl; intros H; [reflexivity|].
   rewrite IH by (intros Hin; apply H; right; exact Hin).
+  destruct v; [|reflexivity].
   destruct (ident_eqb_spec k k') as [E|N]; [exfalso; apply H; left; congruence|reflexivity].
 Qed.
 
@@ -16,15 +17,35 @@ Proof.
   induction d as [|[k' v'] t IH]; simpl; intros H; [discriminate|].
   destruct (dt_lookup k t) as [w|] eqn:E.
   - inversion H; subst. right. apply IH. reflexivity.
-  - destruct (ident_eqb_spec k k') as [E'|N]; [|discriminate]. inversion H; subst. left. reflexivity.
+  - destruct v'; [|discriminate].
+    destruct (ident_eqb_spec k k') as [E'|N]; [|discriminate]. inversion H; subst. left. reflexivity.
 Qed.
 
-Lemma dt_lookup_in k v d : NoDup (dt_ids d) -> In (k, v) d -> dt_lookup k d = Some v.
+(* the missing element is never found: it is not in _element_values_dict *)
+Lemma dt_lookup_not_missing k d : dt_lookup k d <> Some DMissing.
+Proof.
+  induction d as [|[k' v'] t IH]; simpl; [discriminate|].
+  destruct (dt_lookup k t) as [w|] eqn:E.
+  - intros H. inversion H; subst. exact (IH eq_refl).
+  - destruct v'; [|discriminate]. destruct (ident_eqb k k'); discriminate.
+Qed.
+
+Lemma dt_lookup_in k v d : NoDup (dt_ids d) -> In (k, DVal v) d -> dt_lookup k d = Some (DVal v).
 Proof.
   induction d as [|[k' v'] t IH]; simpl; intros Hn Hin; [contradiction|].
   inversion Hn as [|? ? Hk Ht]; subst. destruct Hin as [E|Hin].
   - inversion E; subst. rewrite dt_lookup_notin by exact Hk. rewrite ident_eqb_refl. reflexivity.
   - rewrite (IH Ht Hin). reflexivity.
+Qed.
+
+Lemma dt_lookup_missing k d : NoDup (dt_ids d) -> In (k, DMissing) d -> dt_lookup k d = None.
+Proof.
+  induction d as [|[k' v'] t IH]; simpl; intros Hn Hin; [contradiction|].
+  inversion Hn as [|? ? Hk Ht]; subst. destruct Hin as [E|Hin].
+  - inversion E; subst. rewrite dt_lookup_notin by exact Hk. reflexivity.
+  - rewrite (IH Ht Hin). destruct v'; [|reflexivity].
+    destruct (ident_eqb_spec k k') as [E'|N]; [|reflexivity].
+    exfalso. apply Hk. subst k'. unfold dt_ids. apply in_map_iff. exists (k, DMissing). split; [reflexivity|exact Hin].
 Qed.
 
 (* a value refers to its own element and is a fixed point of the translation *)
@@ -49,12 +70,33 @@ Qed.
 Lemma dt_translate_stale d x : ~ In (dt_key x) (dt_ids d) -> dt_translate d x = TId x.
 Proof. intros H. unfold dt_translate. rewrite dt_lookup_notin by exact H. reflexivity. Qed.
 
-(* the position id of the missing ("No Data") element translates to an unhashable JSON
-   object: open finding C19-datetime-missing-position *)
+(* the position id of the missing ("No Data") element is left alone (REPAIRED defect
+   C19-datetime-missing-position: it used to translate to the unhashable JSON object) *)
 Lemma dt_translate_missing d k :
-  NoDup (dt_ids d) -> In (k, DMissing) d -> dt_key k = k -> dt_translate d k = TObj.
+  NoDup (dt_ids d) -> In (k, DMissing) d -> dt_key k = k -> dt_translate d k = TId k.
 Proof.
-  intros Hn Hin Hk. unfold dt_translate. rewrite Hk. rewrite (dt_lookup_in _ _ d Hn Hin). reflexivity.
+  intros Hn Hin Hk. unfold dt_translate. rewrite Hk. rewrite (dt_lookup_missing k d Hn Hin). reflexivity.
+Qed.
+
+(* no reference at all translates to the JSON object any more ... *)
+Lemma dt_translate_never_obj d x : dt_translate d x <> TObj.
+Proof.
+  unfold dt_translate. destruct (dt_lookup (dt_key x) d) as [[v|]|] eqn:E; try discriminate.
+  exfalso. exact (dt_lookup_not_missing _ _ E).
+Qed.
+
+Lemma tvals_ids_total d l : exists r, tvals_ids (map (dt_translate d) l) = Ok r.
+Proof.
+  induction l as [|x l [r IH]]; simpl; [eexists; reflexivity|].
+  destruct (dt_translate d x) as [y|] eqn:E; [|exfalso; exact (dt_translate_never_obj d x E)].
+  rewrite IH. eexists; reflexivity.
+Qed.
+
+(* ... so rewriting the element-transform keys of a datetime dimension never raises *)
+Lemma dt_replaced_elements_total d e : exists e', dt_replaced_elements d e = Ok e'.
+Proof.
+  unfold dt_replaced_elements. destruct (tvals_ids_total d (map fst e)) as [ks Hk]. rewrite Hk.
+  destruct (dget key_str e) as [[| |p]|]; eexists; reflexivity.
 Qed.
 
 Lemma dt_translate_idem d x y : dt_wf d -> dt_translate d x = TId y -> dt_translate d y = TId y.
@@ -62,7 +104,7 @@ Proof.
   intros W H. unfold dt_translate in H.
   destruct (dt_lookup (dt_key x) d) as [[v|]|] eqn:E.
   - inversion H; subst. apply dt_lookup_some in E. exact (dt_translate_value d _ y W E).
-  - discriminate.
+  - exfalso. exact (dt_lookup_not_missing _ _ E).
   - inversion H; subst. unfold dt_translate. rewrite E. reflexivity.
 Qed.
 
